@@ -2280,8 +2280,16 @@ class Connection_Manager( Object ):
             if log.isEnabledFor( logging.DETAIL ):
                 log.detail( "%s Routing request to target Object at address %s", self, enip_format( targetpath ))
             # We have the service and path. Find the target Object (see state_multiple_service.closure)
-            ids			= resolve( targetpath.path )
-            target		= lookup( *ids )
+            # An unresolvable request path (eg. an unknown Tag) or unknown Object is not a protocol
+            # failure: the (Logix) Message Router must answer it, with the appropriate error status.
+            ids,target		= (Message_Router.class_id, 1, None),None
+            try:
+                ids		= resolve( targetpath.path )
+                target		= lookup( *ids )
+            except Exception as exc:
+                log.detail( "%s Unresolvable request path %s: %s", self, enip_format( targetpath ), exc )
+            if not target:
+                target		= lookup( Message_Router.class_id, 1 )
             if log.isEnabledFor( logging.DETAIL ):
                 log.detail( u"{} Found target object for address {} resolves to {}: {!r}".format(
                     self,
